@@ -176,8 +176,8 @@ pub fn exec(case: &[i64]) -> Outcome {
       let a = String::from_utf8(take_bytes(&mut v).unwrap()).unwrap();
       let b = String::from_utf8(take_bytes(&mut v).unwrap()).unwrap();
       let (x, y) = match (DIDUrl::parse(&a), DIDUrl::parse(&b)) { (Ok(x), Ok(y)) => (x, y), _ => return Outcome::new(vec![]).class("bad-start").trivial() };
-      let mut o = Outcome::new(vec![]).class("cmp");
       let eq = x == y;
+      let mut o = Outcome::new(vec![eq as i64, match x.cmp(&y) { std::cmp::Ordering::Less => 0, std::cmp::Ordering::Equal => 1, std::cmp::Ordering::Greater => 2 }, (hash_of(&x) == hash_of(&y)) as i64]).class("cmp");
       if eq != (x.cmp(&y) == std::cmp::Ordering::Equal) { o = o.fail("Eq and Ord disagree"); }
       if eq && hash_of(&x) != hash_of(&y) { o = o.fail("equal values hash differently"); }
       if eq != (x.to_string() == y.to_string()) { o = o.fail("equality differs from equality of string forms"); }
